@@ -357,13 +357,19 @@ Record sj_input := {
   sj_local_name : bytes;
   sj_key_id : bytes;
   sj_mapping_ok : bool;             (* pseudo IDs: getMXIDMapping succeeds *)
-  sj_mapping_sig_ok : bool;         (* pseudo IDs: validateMXIDMappingSignatures succeeds *)
+  sj_mapping_key_ok : bool;         (* pseudo IDs: mapping.user_room_key is the sender of the event *)
+  sj_mapping_sig_ok : bool;         (* pseudo IDs: validateMXIDMappingSignatures succeeds (the server of
+                                       mapping.user_id has validly signed the mapping) *)
   sj_store_ok : bool;               (* pseudo IDs: StoreSenderIDFromPublicID succeeds *)
   sj_sender : sender_ans;
   sj_redact_ok : bool;
   sj_verify : verify_ans;           (* of the scripted verifier, or of JSONVerifierSelf for pseudo IDs *)
   sj_membership : option bytes;     (* CurrentMembership; None = error *)
-  sj_authvia_domain : option bytes  (* spec.NewUserID(AuthorisedVia, true): None = invalid *)
+  sj_authvia_domain : option bytes; (* spec.NewUserID(AuthorisedVia, true): None = invalid *)
+  (* Not an input of HandleSendJoin (HandleSendJoinInput has no querier for it; finding F92): does
+     the joiner satisfy an allow condition of the restricted room, or hold an invite?  No model
+     function reads it; the specification oracle does. *)
+  sj_joiner_entitled : bool
 }.
 
 Record event_result := {
@@ -388,7 +394,9 @@ Section SendJoin.
   Definition send_join_checks (i : sj_input) (log0 : list bytes) : event_result :=
     let f := sj_fields i in
     let pseudo := bytes_eqb (sj_version i) v_pseudo_ids in
-    let log1 := log0 ++ [entry [bs "U"; sj_req_room i; ef_sender f]] in
+    (* in pseudo-ID rooms the sender's user is read off the validated mapping ([sj_sender] is that
+       answer); the user-ID querier is asked in the other room versions only *)
+    let log1 := if pseudo then log0 else log0 ++ [entry [bs "U"; sj_req_room i; ef_sender f]] in
     match sj_sender i with
     | SErr => efail OForbidden log1
     | SNil => efail OForbidden log1
@@ -427,9 +435,13 @@ Section SendJoin.
                                         end
                                  end in
                                if negb via_ok then efail OBadJson log3
-                               else {| er_out := OOk; er_log := log3;
-                                       er_already_joined := bytes_eqb cur s_join;
-                                       er_event := Some (sign (sj_local_name i) (sj_key_id i) (sj_event i)) |}
+                               else
+                                 (* the mapping is stored only now that the join is accepted *)
+                                 let log4 := if pseudo then log3 ++ [entry [bs "T"; sj_req_room i]] else log3 in
+                                 if pseudo && negb (sj_store_ok i) then efail OPassthrough log4
+                                 else {| er_out := OOk; er_log := log4;
+                                         er_already_joined := bytes_eqb cur s_join;
+                                         er_event := Some (sign (sj_local_name i) (sj_key_id i) (sj_event i)) |}
                          end
                      end
                end
@@ -443,12 +455,10 @@ Section SendJoin.
     else if match ef_state_key f with None => true | Some k => bytes_eqb k [] end then efail OBadJson []
     else if negb (state_key_is f (ef_sender f)) then efail OBadJson []
     else if pseudo then
-      (* validate and store the mxid_mapping *)
+      (* validate the mxid_mapping: present, for the sender's room key, signed by the user's server *)
       if negb (sj_mapping_ok i) then efail OBadJson []
+      else if negb (sj_mapping_key_ok i) then efail OBadJson []
       else if negb (sj_mapping_sig_ok i) then efail OForbidden []
-      else
-        let log0 := [entry [bs "T"; sj_req_room i]] in
-        if negb (sj_store_ok i) then efail OPassthrough log0
-        else send_join_checks i log0
+      else send_join_checks i []
     else send_join_checks i [].
 End SendJoin.
